@@ -120,6 +120,27 @@ def atomic_specs():
     add("String(2,4,^[ab]+$)", "String", lambda: String("ab", minlen=2, maxlen=4, regex="^[ab]+$"),
         rf.ref_string(2, 4, "^[ab]+$"))
     add("String()", "String", lambda: String(), rf.ref_string(0, 10 ** 9, ""))
+    # full option grid: each length bound alone / together, with and without a regex
+    for mn in (0, 1, 3):
+        for mx in (None, 2, 4):
+            for rx in ("", "^[a-z]+$", "^a"):
+                if (mn, mx, rx) in ((0, None, ""),) or (mx is not None and mx < mn):
+                    continue
+                dv = {"": "abc", "^[a-z]+$": "abc", "^a": "abc"}[rx][:mx or 3]
+                if len(dv) < mn:
+                    continue
+                kw = {"minlen": mn}
+                if mx is not None:
+                    kw["maxlen"] = mx
+                if rx:
+                    kw["regex"] = rx
+                add("String(%d,%s,%r)" % (mn, mx, rx), "String",
+                    lambda dv=dv, kw=kw: String(dv, **kw),
+                    rf.ref_string(mn, mx if mx is not None else 10 ** 9, rx))
+    add("Regex(^[0-9]+$,minlen=3)", "String", lambda: Regex("123", regex="^[0-9]+$", minlen=3),
+        rf.ref_string(3, 10 ** 9, "^[0-9]+$"))
+    add("Regex(^[0-9]+$,maxlen=2)", "String", lambda: Regex("1", regex="^[0-9]+$", maxlen=2),
+        rf.ref_string(0, 2, "^[0-9]+$"))
     add("Regex(^[0-9]+$)", "String", lambda: Regex("1", regex="^[0-9]+$"), rf.ref_string(0, 10 ** 9, "^[0-9]+$"))
     add("PrefixList", "PrefixList", lambda: PrefixList(["yes", "no", "yellow"]),
         rf.ref_prefixlist(["yes", "no", "yellow"]))
